@@ -355,8 +355,24 @@ def d4(ctx, rep):
     if calls:
         a0 = _res(gm, calls[0].args[0]) if calls[0].args else None
         good = isinstance(a0, ast.Subscript) and is_self_attr(a0.value, gm.self_name, '_params') and const_value(a0.slice) == 'dataset'
-        rep.check('D4.kde', gm, calls[0], good, "the model is built from self._params['dataset']", 'the final model is not built from the stored dataset',
-                  construct='model dataset')
+        optional = None
+        if not good and isinstance(a0, ast.Name) and a0.id in gm.params and isinstance(gm.defaults.get(a0.id), ast.Constant) and gm.defaults[a0.id].value is None:
+            # `def _get_model(self, dataset=None): if dataset is None: dataset = self._params['dataset']`: the stored dataset unless a caller hands in another
+            from ..idioms import assignments
+            asg = [a for a in assignments(gm.node, a0.id) if isinstance(a, ast.Assign)]
+            if len(asg) == 1 and isinstance(asg[0].value, ast.Subscript) and is_self_attr(asg[0].value.value, gm.self_name, '_params') and const_value(asg[0].value.slice) == 'dataset' \
+                    and any(is_none_test(t) is not None and isinstance(is_none_test(t)[0], ast.Name) and is_none_test(t)[0].id == a0.id and is_none_test(t)[1] == pol
+                            for t, pol in guard_chain(asg[0], gm.node)):
+                passing = [c for m in kde.methods.values() for c in walk_no_nested(m.node) if isinstance(c, ast.Call) and is_self_attr(c.func, m.self_name, gm.name)
+                           and (c.args or c.keywords)]
+                optional = passing
+        if optional is not None and not optional:
+            rep.ok('D4.kde', gm, calls[0], "the model is built from self._params['dataset'] (no caller hands in another dataset)", construct='model dataset')
+        elif optional:
+            rep.undecided('D4.kde', gm, optional[0], f"`{short(optional[0], 50)}` hands its own dataset to the model builder; whether it is the stored one is decided at the call", construct='model dataset')
+        else:
+            rep.check('D4.kde', gm, calls[0], good, "the model is built from self._params['dataset']", 'the final model is not built from the stored dataset',
+                      construct='model dataset')
     fit = kde.methods['_fit']
     xp = fit.params[1]
     ds = params_dicts(fit)
@@ -364,7 +380,33 @@ def d4(ctx, rep):
     for st in [a for a in walk_no_nested(fit.node) if isinstance(a, ast.Assign) and any(is_self_attr(t, fit.self_name, '_model') for t in a.targets)]:
         v = _res(fit, st.value)
         cons = 'fitted estimator and stored dataset agree'
-        if isinstance(v, ast.Call) and is_self_attr(v.func, fit.self_name, '_get_model'):
+        # the estimator that is kept owns its points: scipy's gaussian_kde keeps `atleast_2d(asarray(dataset))`, a view of an ndarray
+        # argument, so an estimator built on the caller's array (through non-copying conversions only) changes when the caller
+        # modifies that array later, while the stored dataset, the bounds and the bandwidth stay as they were at fit time
+        if isinstance(v, ast.Call) and (v.args or v.keywords):
+            handed = list(v.args) + [k.value for k in v.keywords]
+            for h_ in handed:
+                e_ = h_
+                steps_ = 0
+                while steps_ < 6:
+                    steps_ += 1
+                    if isinstance(e_, ast.Call) and call_name(e_) in ('asarray', 'asanyarray', 'ravel', 'reshape', 'atleast_1d', 'atleast_2d', 'squeeze', 'view', 'to_numpy') \
+                            and (e_.args or isinstance(e_.func, ast.Attribute)):
+                        e_ = e_.args[0] if (e_.args and not (isinstance(e_.func, ast.Attribute) and isinstance(e_.func.value, ast.Name) and e_.func.value.id == xp)) else e_.func.value
+                    elif isinstance(e_, ast.Attribute) and e_.attr in ('values', 'T'):
+                        e_ = e_.value
+                    elif isinstance(e_, ast.Name) and e_.id != xp:
+                        d_ = single_def(fit.node, e_.id)
+                        if not isinstance(d_, ast.AST):
+                            break
+                        e_ = d_
+                    else:
+                        break
+                rebinds = [a for a in fit.node.body if isinstance(a, ast.Assign) and a.lineno < st.lineno and any(isinstance(t, ast.Name) and t.id == xp for t in a.targets)]
+                if isinstance(e_, ast.Name) and e_.id == xp and not rebinds:
+                    rep.bad('D4.kde', fit, st, f'self._model is built on `{short(h_, 40)}`, the caller\'s own array (no copy on the way): scipy keeps a view of it, so the fitted '
+                            'density follows later changes of that array while the stored dataset and the bandwidth do not', construct='fitted estimator owns its points')
+        if isinstance(v, ast.Call) and is_self_attr(v.func, fit.self_name, '_get_model') and not v.args and not v.keywords:
             rep.ok('D4.kde', fit, st, 'self._model = self._get_model(): built from the stored dataset', construct=cons)
             continue
         src = _kde_dataset_arg(prog, fit, v) if isinstance(v, ast.Call) else None
